@@ -5,7 +5,7 @@ namespace ErrModel.Effects
 def errorTypes : List String := ["assert.withAssertionFailure", "barriers.barrierErr", "barriers.barrierError", "contexttags.withContext", "domains.withDomain", "errbase.OpaqueErrno", "errbase.errorFormatter", "errbase.opaqueLeaf", "errbase.opaqueWrapper", "errorspb.TestError", "errutil.leafError", "errutil.withNewMessage", "errutil.withPrefix", "extgrpc.withGrpcCode", "exthttp.withHTTPCode", "hintdetail.withDetail", "hintdetail.withHint", "issuelink.unimplementedError", "issuelink.withIssueLink", "join.joinError", "markers.withMark", "safedetails.withSafeDetails", "secondary.withSecondaryError", "telemetrykeys.withTelemetry", "withstack.withStack"]
 
 /-- (package, method, lvalue): writes through the receiver in a method of an error type -/
-def recvMutations : List (String × String × String) := [("telemetrykeys", "withTelemetry.SafeDetails", "w.keys")]
+def recvMutations : List (String × String × String) := []
 
 /-- (package, function, lvalue): writes to package-level variables outside init -/
 def globalWrites : List (String × String × String) := [("errbase", "RegisterLeafDecoder", "delete(leafDecoders)"),
